@@ -279,6 +279,12 @@ func execA(c caseA) (st stats, err error) {
 			if len(o.Tags) > 0 {
 				hdr = append(hdr, s3c.KV{K: "x-amz-tagging", V: tagHeader(o.Tags)})
 			}
+			// a third of the multipart uploads ask for a checksum over the whole object (the algorithms that can be
+			// combined over parts); the parts then carry their own checksums and the completion states none
+			fullObj := o.Csum && (o.Algo == "crc32" || o.Algo == "crc32c" || o.Algo == "crc64nvme")
+			if fullObj {
+				hdr = append(hdr, s3c.KV{K: "x-amz-checksum-algorithm", V: strings.ToUpper(o.Algo)}, s3c.KV{K: "x-amz-checksum-type", V: "FULL_OBJECT"})
+			}
 			r, err := cl.Call("POST", path(k), s3c.Q("uploads", ""), hdr, nil)
 			if err != nil {
 				return st, fmt.Errorf("SETUP: transport: %v", err)
@@ -299,6 +305,9 @@ func execA(c caseA) (st stats, err error) {
 				if chunkMode(po.Enc) != "" && chunkMode(po.Enc) != s3c.StreamingSigned {
 					po.Enc = "chunked-signed"
 				}
+				if fullObj {
+					po.Enc, po.Csum = "plain", true
+				}
 				pr, err := upload(pcl, path(k), s3c.Q("partNumber", fmt.Sprint(partNo(o, pn)), "uploadId", ini.UploadId), nil, pb, po)
 				if err != nil {
 					return st, fmt.Errorf("SETUP: transport: %v", err)
@@ -312,7 +321,11 @@ func execA(c caseA) (st stats, err error) {
 				if et != md5hex(pb) {
 					return st, fmt.Errorf("%s: UploadPart %d answered ETag %s, content MD5 is %s", where, partNo(o, pn), et, md5hex(pb))
 				}
-				parts = append(parts, s3c.Part{PartNumber: partNo(o, pn), ETag: et})
+				pt := s3c.Part{PartNumber: partNo(o, pn), ETag: et}
+				if fullObj {
+					pt.CsumAlgo, pt.Csum = o.Algo, s3c.Checksum(o.Algo, pb)
+				}
+				parts = append(parts, pt)
 				s := md5.Sum(pb)
 				md5s = append(md5s, s[:]...)
 			}
@@ -336,6 +349,12 @@ func execA(c caseA) (st stats, err error) {
 			}
 			_, over := model[k]
 			model[k] = &obj{MD5: md5hex(whole), Len: len(whole), ETag: want, Hdrs: kvMap(o.Hdrs), Meta: kvMap(o.Meta), Tags: tagMap(o.Tags), Sums: map[string]string{}, Seed: o.Seed, Parts: o.Parts, By: (o.Proc + 1) % len(w.procs), Over: over}
+			if fullObj {
+				model[k].Sums[o.Algo] = s3c.Checksum(o.Algo, whole)
+				if got := cr.Header.Get("x-amz-checksum-" + o.Algo); got != "" && got != model[k].Sums[o.Algo] {
+					return st, fmt.Errorf("%s: CompleteMultipartUpload answered x-amz-checksum-%s %s, the whole object's is %s", where, o.Algo, got, model[k].Sums[o.Algo])
+				}
+			}
 		case "copy":
 			s := o.Src % len(c.Keys)
 			src, ok := model[s]
